@@ -66,7 +66,14 @@ def main():
     ctx.replay = a.replay
     mod = importlib.import_module("props." + a.prop.lower())
 
-    # stage P: proofs of the hand-written model (the module itself re-checks generated models)
+    # translator-tied properties regenerate their model from the source before the proofs are checked
+    prep_error = None
+    if hasattr(mod, "prepare"):
+        try:
+            mod.prepare(ctx)
+        except vlib.BuildError as e:
+            prep_error = e
+    # stage P: proofs (hand-written models: unchanged unless /verif changed; generated models: re-checked now)
     try:
         ctx.proof = vlib.lean_audit(a.prop, leanchecker=(tier == "thorough"))
     except Exception as e:  # noqa: BLE001
@@ -76,6 +83,8 @@ def main():
 
     # stages B/T/O/K/S: property module
     try:
+        if prep_error is not None:
+            ctx.prep_error = prep_error
         mod.run(ctx)
     except vlib.BuildError as e:
         ctx.violation("stage=build\n" + e.what + "\n" + e.output,
